@@ -57,6 +57,8 @@ def netlist_model(draw, min_modules=1, max_modules=6, kinds=("soft", "soft", "ha
                     m["rects"].append([r[0], r[1], r[2] + 1, r[3] + 2, None])
             elif shape == 2:
                 rs, _ = draw(stog_rects(ox, oy))
+                if draw(st.booleans()):
+                    rs = list(draw(st.permutations(rs)))  # the trunk need not be listed first: recognition will reorder the list
                 m["rects"] = [r + [None] for r in rs]
             if all_centres or not m["rects"] and draw(_i(0, 3)) != 0 or m["rects"] and draw(_i(0, 3)) == 0:
                 m["center"] = [draw(_i(0, 80)), draw(_i(0, 80))]
